@@ -324,7 +324,10 @@ def selfcheck(scns, cwd, out=None):
     a = run_requests(scns, workers=1, timeout=900, cwd=os.path.join(cwd, "self-a"), env=SHIM_ENV)
     b = run_requests(scns, workers=1, timeout=900, cwd=os.path.join(cwd, "self-b"), env=SHIM_ENV)
     c = run_requests(scns, workers=min(16, len(scns)), timeout=900, cwd=os.path.join(cwd, "self-c"), env=SHIM_ENV)
-    bad = [i for i, (x, y) in enumerate(zip(a, b)) if scenario_fingerprint(x) != scenario_fingerprint(y)]
+    # a scenario the driver had to release (lock held across a yield point, see the
+    # watchdog in driver/src/c11.rs) ran freely and has no schedule to compare
+    rel = lambda r: bool((r.get("sched") or {}).get("deadlock_released"))
+    bad = [i for i, (x, y) in enumerate(zip(a, b)) if not (rel(x) or rel(y)) and scenario_fingerprint(x) != scenario_fingerprint(y)]
     obs = lambda r: json.dumps([[obs_of(o) for o in t] for t in r.get("results", [])], sort_keys=True)
     hist = [i for i, (x, y) in enumerate(zip(a, c)) if obs(x) != obs(y)]
     if bad and out is not None:
@@ -428,6 +431,11 @@ def run(tier, seed):
                 return
             if (resp.get("sched") or {}).get("forced_mismatch"):
                 out.harness_errors.append("forced mismatch in random mode")
+            if (resp.get("sched") or {}).get("deadlock_released"):
+                # the running actor blocked on something a parked actor holds (a lock
+                # taken across a yield point): the driver let every actor run freely;
+                # the results below are still judged, only the schedule is not replayable
+                stats["sched_deadlock_released"] = stats.get("sched_deadlock_released", 0) + 1
             for t, (jobs, results) in enumerate(zip(scn["threads"], resp["results"])):
                 if len(results) != len(jobs):
                     out.violation({"class": "thread-died", "tier": tier_name},
